@@ -5,6 +5,7 @@ documented error.  Property theorems; the lemmas are in RigModel/Lemmas/C02*.lea
 import RigModel.Lemmas.C02Merge2
 import RigModel.Lemmas.C02Term
 import RigModel.Lemmas.C02Complete
+import RigModel.Lemmas.C02Init
 set_option linter.unusedSimpArgs false
 set_option linter.unusedVariables false
 
@@ -160,6 +161,69 @@ theorem randPlace_sound (vr : VR) (cs : List Constraint) (m : Machine) (picks : 
         cases hx : aget fixed v with
         | none => exact hall v (by simp [List.mem_filter, hv, hx])
         | some x => simp [hmono v x hx]
+
+/-- **Annealer: initial placement and the "trivial solution" return.**  For EVERY outcome of the
+two shuffles (`locs` = shuffled chips, `vs` = shuffled movable vertices, which must list every vertex
+that is not fixed), what `sa.place` returns when the kernel is not used is feasible; the same
+placement is the kernel's starting state otherwise. -/
+theorem saPlace_initial_sound (vr : VR) (cs : List Constraint) (m : Machine) (locs : List Chip)
+    (vs : List Vtx) (p : Placement) (fl : List Bool)
+    (wf : WF vr cs m) (hcons : Consistent vr cs) (hempty : EmptyOK vr cs m)
+    (hvs : ∀ vr' cs' subs m' fixed, applySame vr cs = .ok (vr', cs', subs) →
+      prepareLoop vr' cs' m [] = .ok (m', fixed) → ∀ v ∈ keys vr', v ∈ vs ∨ v ∈ keys fixed)
+    (h : saPlace vr cs m locs vs none = .ok (p, fl)) : Feasible vr cs m p := by
+  unfold saPlace at h
+  split at h
+  · rename_i h0
+    have : vr = [] := List.eq_nil_of_length_eq_zero h0
+    subst this; injection h with h; injection h with h1 h2; subst h1
+    exact feasible_empty hempty
+  · cases hA : applySame vr cs with
+    | error e => simp [hA, bind, Except.bind] at h
+    | ok r =>
+      obtain ⟨vr', cs', subs⟩ := r
+      have O := applySame_spec m wf.nodup wf.original hA
+      have hn' : (keys vr').Nodup := O.inv.nodup
+      have hnn' := O.nonneg wf.nonnegVR
+      cases hP : prepareLoop vr' cs' m [] with
+      | error e => simp [hA, hP, bind, Except.bind] at h
+      | ok r2 =>
+        obtain ⟨m', fixed⟩ := r2
+        have I0 := inv_after_prepare hn' hnn' wf.nonnegCap hP
+        cases hI : initialPlacement vr' m' locs vs with
+        | error e => simp [hA, hP, hI, bind, Except.bind] at h
+        | ok r3 =>
+          obtain ⟨m'', init⟩ := r3
+          simp only [hA, hP, hI, bind, Except.bind, pure, Except.pure] at h
+          cases hF : finalise subs (mergeP init fixed) with
+          | error e => simp [mergeP] at hF; simp [hF] at h
+          | ok pf =>
+            have hF' := hF
+            simp only [mergeP] at hF'
+            simp only [hF'] at h
+            injection h with h; injection h with h1 h2; subst h1
+            -- the initial placement loop
+            cases locs with
+            | nil => simp [initialPlacement] at hI
+            | cons c0 rest =>
+              simp only [initialPlacement] at hI
+              have hcap' : NonNegCap m' := fun c hc i => I0.nonneg c (by rw [← I0.ok_eq]; exact hc) i
+              obtain ⟨I2, hall2, _⟩ := initLoop_inv hn' hnn' _ _ _ _ _ _ _ (Inv.init vr' m' hcap') hI
+              have I := Inv.compose hnn' I0 I2
+              have hget := aget_mergeP fixed init
+              refine finish O (hcons _ _ _ hA) hP m'' I ?_ ?_ hF
+              · intro v c hv
+                rw [hget v I0.pnodup, hv]
+              · intro v hv
+                rw [hget v I0.pnodup]
+                rcases hvs _ _ _ _ _ hA hP v hv with h1 | h1
+                · cases hx : aget fixed v with
+                  | none => exact hall2 v h1
+                  | some c => rfl
+                · have := (aget_isSome_iff fixed v).2 h1
+                  cases hx : aget fixed v with
+                  | none => simp [hx] at this
+                  | some c => rfl
 
 /-- **The oracle is the specification.**  The decidable check the harness runs on every placement
 returned by the implementation is equivalent to `Feasible`. -/
@@ -423,6 +487,22 @@ example : Feasible exVR exCS exM [(o 2, (1, 0)), (o 0, (1, 0)), (o 1, (1, 0))] :
 
 example : Feasible exVR exCS exM [(o 2, (1, 0)), (o 0, (1, 0)), (o 1, (1, 0))] :=
   randPlace_sound exVR exCS exM [(1, 0), (0, 0)] _ exWF exCons (by rfl)
+
+example : Feasible exVR exCS exM [(o 2, (0, 0)), (o 0, (1, 0)), (o 1, (1, 0))] :=
+  saPlace_initial_sound exVR exCS exM [(0, 0), (1, 0)] [o 2] _ [] exWF exCons exEmpty
+    (by
+      intro vr' cs' subs m' fixed hA hP v hv
+      have e : applySame exVR exCS = .ok ([(o 2, [0, 1]), (m 0, [2, 2])],
+          [same [m 0, m 0], loc (m 0) (1, 0), reserve 1 1 none, loc (m 0) (1, 0)], [[o 0, o 1]]) := by rfl
+      rw [e] at hA; injection hA with hA; injection hA with h1 h2; injection h2 with h2 h3
+      subst h1; subst h2
+      have e2 : prepareLoop [(o 2, [0, 1]), (m 0, [2, 2])]
+          [same [m 0, m 0], loc (m 0) (1, 0), reserve 1 1 none, loc (m 0) (1, 0)] exM [] =
+          .ok ({ exM with res := [5, 7], exc := [((0, 0), [1, 1]), ((1, 0), [1, 3])] }, [(m 0, (1, 0))]) := by rfl
+      rw [e2] at hP; injection hP with hP; injection hP with h4 h5; subst h5
+      simp [keys] at hv ⊢
+      rcases hv with rfl | rfl <;> simp)
+    (by rfl)
 
 /-- the specification is not trivially true: the same problem with every vertex on the small chip -/
 example : ¬ Feasible exVR exCS exM [(o 2, (0, 0)), (o 0, (0, 0)), (o 1, (0, 0))] := by
